@@ -115,4 +115,121 @@ theorem restore_capture_same (t : Node) (ht : TreeOk t) (o : Opts) (ho : OptsOk 
     exact hP.inos e he e' he' hd hd' n n' hn hn'
 
 
+/-- Every directory of the tree gets a fix-up with its archived mode and mtime, and the sorted
+fix-up list has the fix-up of a directory after those of the directories below it. -/
+theorem fixups_order_of_restore (t : Node) (ht : TreeOk t) (o : Opts) (ho : OptsOk o) (dstMode : Nat)
+    (hdst : o.root = true ∨ (dstMode &&& 0o200 ≠ 0 ∧ dstMode &&& 0o100 ≠ 0))
+    (d c : Entry) (hd : d ∈ capture t) (hc : c ∈ capture t) (hdd : d.ftype = .dir) (hcd : c.ftype = .dir)
+    (n : Name) (r : Path) (hbelow : c.path = d.path ++ n :: r) :
+    let w := (restoreAll o (emptyDst dstMode) (linkify .tar (capture t))).1
+    ∃ fd fc a b z, fd.path = d.path ∧ fd.mode = d.mode ∧ fd.mtime = d.mtime ∧ fd.doTimes = true ∧
+      fc.path = c.path ∧ fc.mode = c.mode ∧ fc.mtime = c.mtime ∧ fc.doTimes = true ∧ fc.doMode = true ∧
+      sortDir w.fixups = a ++ fc :: b ++ fd :: z := by
+  obtain ⟨m, cs, rfl⟩ := ht.isDir
+  have hes := entriesOk_of_treeOk ht
+  rw [linkify_tar_eq _ hes.linkOk hes.fresh]
+  have hcap : capture (.dir m cs) = (Node.dir m cs).entry [] :: (Node.dir m cs).inside [] := rfl
+  have hrun := restoreAll_tar o ho dstMode hdst ((Node.dir m cs).entry []) ((Node.dir m cs).inside [])
+    (by rw [← hcap]; exact hes) (Node.entry_path _ _) (Node.entry_dir _ _ _) (capture_parents m cs)
+  rw [← hcap] at hrun
+  obtain ⟨hP, _⟩ := hrun
+  intro w
+  have hfd := hP.fxAll d hd hdd
+  have hfc := hP.fxAll c hc hcd
+  obtain ⟨a, b, z, hs⟩ := fixup_order _ hP.fxNodup (fixupOf o dstMode d) (fixupOf o dstMode c) hfd hfc n r
+    (by simpa [fixupOf] using hbelow)
+  refine ⟨fixupOf o dstMode d, fixupOf o dstMode c, a, b, z, rfl, rfl, rfl, rfl, rfl, rfl, rfl, rfl, ?_, hs⟩
+  have : c.path ≠ [] := by rw [hbelow]; simp
+  simp [fixupOf, this]
+
+section Cpio
+open LA.Lnk
+
+theorem run_all_pt (l : List Entry) (hp : ∀ e ∈ l, e.pt = true) : ∀ (k : Nat) (s : State),
+    run s (opsFrom k l) = (s, (List.zipIdx l k).map fun (e, i) => e.toEnt i) := by
+  induction l with
+  | nil => intro k s; simp [opsFrom, run]
+  | cons e rest ih =>
+    intro k s
+    have hops : opsFrom k (e :: rest) = Op.push (e.toEnt k) :: opsFrom (k + 1) rest := by
+      simp [opsFrom, List.zipIdx_cons]
+    have hpush : push s (e.toEnt k) = (s, some (e.toEnt k), none) := by
+      unfold push
+      simp [passthrough_toEnt, hp e (by simp)]
+    rw [hops]
+    simp only [run, step, hpush, ih (fun x hx => hp x (List.mem_cons_of_mem _ hx)) (k + 1) s]
+    simp [List.zipIdx_cons]
+
+theorem filterMap_fromEnt_zipIdx (es : List Entry) (hn : ∀ e ∈ es, e.hardlink = none) :
+    ∀ (l : List Entry) (k : Nat), (∀ i e, l[i]? = some e → es[k + i]? = some e) →
+      ((List.zipIdx l k).map fun (e, i) => e.toEnt i).filterMap (fromEnt es) = l := by
+  intro l
+  induction l with
+  | nil => intro k _; simp
+  | cons e rest ih =>
+    intro k h
+    have he : es[k]? = some e := by simpa using h 0 e (by simp)
+    have hmem : e ∈ es := List.mem_of_getElem? he
+    simp only [List.zipIdx_cons, List.map_cons, List.filterMap_cons]
+    have : fromEnt es (e.toEnt k) = some e := by
+      simp only [fromEnt, Entry.toEnt, he]
+      have := hn e hmem
+      cases e; simp_all
+    rw [this]
+    simp only [List.cons.injEq, true_and]
+    apply ih (k + 1)
+    intro i x hx
+    have := h (i + 1) x (by simpa using hx)
+    rw [← this]; congr 1; omega
+
+/-- When no object has a second name the resolver (any strategy) hands every entry through. -/
+theorem linkify_no_links (es : List Entry) (st : Strategy) (h1 : ∀ e ∈ es, e.pt = true)
+    (h2 : ∀ e ∈ es, e.hardlink = none) : linkify st es = es := by
+  unfold linkify
+  have hops : pushOps es = opsFrom 0 es := rfl
+  simp only [hops, run_all_pt es h1 0]
+  have : (drainLoop { strategy := st } (List.replicate es.length 0)).2 = [] := by
+    apply drainLoop_nothing_held
+    intro le hle; simp at hle
+  rw [this, List.append_nil]
+  exact filterMap_fromEnt_zipIdx es h2 es 0 (by intro i e h; simpa using h)
+
+theorem cpioReadLinks_no_links (l : List Entry) (h : ∀ e ∈ l, e.nlink ≤ 1 ∨ e.ftype = .dir) :
+    ∀ tbl, cpioReadLinks tbl l = l := by
+  induction l with
+  | nil => intro tbl; rfl
+  | cons e rest ih =>
+    intro tbl
+    have he := h e (by simp)
+    have hc : (decide (e.nlink ≤ 1) || e.ftype == .dir) = true := by
+      rcases he with he | he <;> simp [he]
+    simp only [cpioReadLinks, hc, if_true]
+    rw [ih (fun x hx => h x (List.mem_cons_of_mem _ hx))]
+
+theorem cpioArchive_no_links (es : List Entry) (st : Strategy)
+    (h1 : ∀ e ∈ es, e.ftype ≠ .dir → e.nlink = 1)
+    (h2 : ∀ e ∈ es, e.hardlink = none ∧ e.sizeSet = true)
+    (h3 : ∀ e ∈ es, e.size = e.payload.size ∧ (e.ftype ≠ .reg → e.size = 0)) :
+    (cpioArchive st es).map (·.path) = es.map (·.path) ∧ ∀ e ∈ cpioArchive st es, e.hardlink = none := by
+  have hpt : ∀ e ∈ es, e.pt = true := by
+    intro e he
+    by_cases hd : e.ftype = .dir
+    · simp [Entry.pt, hd]
+    · simp [Entry.pt, h1 e he hd]
+  unfold cpioArchive
+  rw [linkify_no_links es st hpt (fun e he => (h2 e he).1)]
+  have hno : ∀ e ∈ es.map Entry.cpioWritten, e.nlink ≤ 1 ∨ e.ftype = .dir := by
+    intro x hx
+    obtain ⟨e, he, rfl⟩ := List.mem_map.mp hx
+    by_cases hd : e.ftype = .dir
+    · right; simpa [Entry.cpioWritten] using hd
+    · left; simp [Entry.cpioWritten, h1 e he hd]
+  rw [cpioReadLinks_no_links _ hno]
+  refine ⟨by simp [List.map_map, Function.comp_def, Entry.cpioWritten], ?_⟩
+  intro x hx
+  obtain ⟨e, _, rfl⟩ := List.mem_map.mp hx
+  simp [Entry.cpioWritten]
+
+end Cpio
+
 end LA.Tree
